@@ -190,3 +190,130 @@ Proof.
   unfold emb, with_ack, ack_start, ack_stop. pyred. rewrite Hlen.
   destruct (m_ready s); pyred; reflexivity.
 Qed.
+
+(* ================================================================== *)
+(* IMapIterator._set / _set_length, IMapUnorderedIterator._set          *)
+(* (module IM of the generated file; the objects in the deque and in the dict are
+   opaque tokens, so the model is instantiated at B := pv)                        *)
+From BV Require Import Proofs.ReassemblyProofs Proofs.ReassemblyImapProofs.
+
+Definition embi (s : istate pv) (job : Z) : IM.st :=
+  IM.mk_st (PInt (i_index s)) (optv (i_length s)) (PBool (i_ready s)) (PInt job)
+           (i_items s) (i_unsorted s) (i_incache s).
+
+(* result of a step: the exception, if any, carries the state reached *)
+Definition iout (r : istate pv * option exn) (job : Z) : outcome IM.st pv :=
+  match snd r with
+  | None => Ok PNone (embi (fst r) job)
+  | Some e => Exc e (embi (fst r) job)
+  end.
+
+Lemma dget_eq (d : list (Z * pv)) k : IM.dget d k = dict_get d k.
+Proof. induction d as [|[k' v] d IH]; cbn; [reflexivity|]. rewrite IH. reflexivity. Qed.
+Lemma dremove_eq (d : list (Z * pv)) k : IM.dremove d k = dict_remove d k.
+Proof. induction d as [|[k' v] d IH]; cbn; [reflexivity|]. rewrite IH. reflexivity. Qed.
+
+Ltac imred :=
+  cbv [if_truth bindv bindo truth py_add py_eq arith as_int negb
+       IM.items_append IM.unsorted_move IM.unsorted_set IM.cache_del IM.noop IM.unsorted_has
+       IM.f_self__index IM.f_self__length IM.f_self__ready IM.f_self__job
+       IM.g_items IM.g_unsorted IM.g_incache
+       IM.set_self__index IM.set_self__length IM.set_self__ready IM.set_self__job optv];
+  cbn [i_items i_index i_length i_ready i_unsorted i_incache fst snd].
+
+Definition ist (idx : Z) (len rdy : pv) (job : Z) (items : list pv) (d : list (Z * pv)) (ic : bool) :=
+  IM.mk_st (PInt idx) len rdy (PInt job) items d ic.
+
+(* the translated `while self._index in self._unsorted` loop is the model's drain *)
+Lemma im_while_drain (body : IM.st -> outcome IM.st unit) len rdy job ic :
+    (forall idx items d o, IM.dget d idx = Some o ->
+        body (ist idx len rdy job items d ic) =
+        Ok tt (ist (idx + 1) len rdy job (items ++ [o]) (IM.dremove d idx) ic)) ->
+    forall fuel items idx d, (length d <= fuel)%nat ->
+    while_loop fuel IM.unsorted_has body (ist idx len rdy job items d ic) =
+    let '(items', idx', d') := drain fuel items idx d in
+    Ok tt (ist idx' len rdy job items' d' ic).
+Proof.
+  intros Hbody. induction fuel as [|fuel IH]; intros items idx d Hlen.
+  - assert (d = []) by (destruct d; [reflexivity|cbn in Hlen; lia]). subst d. reflexivity.
+  - assert (Hhas : IM.unsorted_has (ist idx len rdy job items d ic) =
+                    PBool (match dict_get d idx with Some _ => true | None => false end)).
+    { unfold IM.unsorted_has, ist. cbn [IM.f_self__index IM.g_unsorted]. rewrite dget_eq. reflexivity. }
+    cbn [while_loop drain]. rewrite Hhas.
+    destruct (dict_get d idx) as [o|] eqn:Eg; cbn [truth].
+    + rewrite (Hbody idx items d o) by (rewrite dget_eq; exact Eg). cbn [bindo].
+      rewrite IH.
+      * rewrite dremove_eq. reflexivity.
+      * rewrite dremove_eq. pose proof (dict_remove_length_lt d idx o Eg). lia.
+    + reflexivity.
+Qed.
+
+Lemma finish_eq (s : istate pv) (job : Z) :
+    if_truth (py_eq (PInt (i_index s)) (optv (i_length s))) (embi s job)
+      (bindv (PBool true) (embi s job) (fun t =>
+         let s1 := IM.set_self__ready (embi s job) t in
+         bindv (IM.f_self__job s1) s1 (fun t' =>
+           bindo (IM.cache_del s1 [t']) (fun _ s2 => Ok PNone s2))))
+      (Ok PNone (embi s job))
+    = iout (imap_finish s) job.
+Proof.
+  unfold imap_finish, at_length, iout, embi.
+  destruct (i_length s) as [n|]; imred.
+  - destruct (i_index s =? n); imred; [|reflexivity].
+    destruct (i_incache s); reflexivity.
+  - reflexivity.
+Qed.
+
+Lemma gen_iset_length_eq : forall (s : istate pv) (job n : Z),
+    IM.iset_length (embi s job) (PInt n) = iout (imap_set_length s n) job.
+Proof.
+  intros s job n. unfold IM.iset_length, imap_set_length.
+  rewrite <- (finish_eq (mk_ist (i_items s) (i_index s) (Some n) (i_ready s) (i_unsorted s) (i_incache s)) job).
+  unfold embi. imred. reflexivity.
+Qed.
+
+Lemma gen_uset_eq : forall (s : istate pv) (job i : Z) (obj : pv),
+    is_err obj = None ->
+    IM.uset (embi s job) (PInt i) obj = iout (imapu_set s i obj) job.
+Proof.
+  intros s job i obj Hobj. unfold IM.uset, imapu_set.
+  rewrite <- (finish_eq (mk_ist (i_items s ++ [obj]) (i_index s + 1) (i_length s) (i_ready s)
+                                (i_unsorted s) (i_incache s)) job).
+  unfold embi. destruct obj; try discriminate; imred; reflexivity.
+Qed.
+
+Lemma gen_iset_eq : forall (s : istate pv) (job i : Z) (obj : pv),
+    is_err obj = None ->
+    IM.iset (embi s job) (PInt i) obj = iout (imap_set s i obj) job.
+Proof.
+  intros s job i obj Hobj. unfold IM.iset, imap_set.
+  assert (Hb : forall (v : pv) (st0 : IM.st) (k : pv -> outcome IM.st pv), bindv obj st0 k = k obj)
+    by (intros; destruct obj; try discriminate; reflexivity).
+  unfold embi at 1. cbn [IM.f_self__index]. unfold py_eq at 1. cbn [as_int if_truth truth].
+  destruct (i_index s =? i) eqn:Ei.
+  - rewrite (Hb PNone). unfold IM.items_append at 1. cbn [bindo].
+    cbn [IM.f_self__index IM.f_self__length IM.f_self__ready IM.f_self__job IM.g_items
+         IM.g_unsorted IM.g_incache]. unfold py_add at 1. cbn [arith as_int bindv].
+    unfold IM.set_self__index at 1.
+    cbn [IM.f_self__index IM.f_self__length IM.f_self__ready IM.f_self__job IM.g_items
+         IM.g_unsorted IM.g_incache].
+    change (IM.mk_st (PInt (i_index s + 1)) (optv (i_length s)) (PBool (i_ready s)) (PInt job)
+                     (i_items s ++ [obj]) (i_unsorted s) (i_incache s))
+      with (ist (i_index s + 1) (optv (i_length s)) (PBool (i_ready s)) job
+                (i_items s ++ [obj]) (i_unsorted s) (i_incache s)).
+    rewrite (im_while_drain _ (optv (i_length s)) (PBool (i_ready s)) job (i_incache s)).
+    + destruct (drain (length (i_unsorted s)) (i_items s ++ [obj]) (i_index s + 1) (i_unsorted s))
+        as [[items' idx'] d'].
+      cbn [bindo]. unfold IM.noop at 1. cbn [bindo].
+      rewrite <- (finish_eq (mk_ist items' idx' (i_length s) (i_ready s) d' (i_incache s)) job).
+      reflexivity.
+    + intros idx items d o Hg. unfold ist. imred. rewrite Hg. reflexivity.
+    + apply le_n.
+  - unfold bindv at 1. rewrite (Hb PNone). unfold IM.unsorted_set at 1. cbn [bindo].
+    cbn [IM.f_self__index IM.f_self__length IM.f_self__ready IM.f_self__job IM.g_items
+         IM.g_unsorted IM.g_incache].
+    rewrite dremove_eq.
+    rewrite <- (finish_eq (mk_ist (i_items s) (i_index s) (i_length s) (i_ready s)
+                                  (dict_set (i_unsorted s) i obj) (i_incache s)) job).
+    reflexivity.
+Qed.
